@@ -377,10 +377,15 @@ async fn conc_schedule<TC: Tcfg>(case: &ConcCase, sc: &ConcScenario, policy: &Po
         let rd = &readers[i];
         let stm = &managers[i];
         let w = &sc.world;
+        // An explicit flush is only issued on instances with their own storage manager, between two of their own
+        // requests. akd's only flush path (the change poller) takes the directory's cache lock, which excludes
+        // publishes and proof generations on that instance; a raw flush of the writer's shared cache in the middle
+        // of its publish would violate that documented locking precondition.
+        let flushable = case.readers[i].0 != RInst::WriterClone;
         actors.push(Box::pin(async move {
             let mut outs = vec![];
             for op in ops {
-                outs.push((op.clone(), do_op(rd.as_ref(), Some(stm), w, op).await));
+                outs.push((op.clone(), do_op(rd.as_ref(), if flushable { Some(stm) } else { None }, w, op).await));
             }
             Out::Reader(outs)
         }));
